@@ -313,6 +313,10 @@ fn schema_pool() -> Vec<(&'static str, serde_json::Value)> {
         ("Pair", json!({"type": "array", "items": [{"type": "integer"}, {"$ref": "#/definitions/Pair"}], "minItems": 2, "maxItems": 2})),
         ("Alias", json!({"type": "string"})),
         ("Opt", json!({"type": ["string", "null"]})),
+        // an untagged enum whose FromStr / Display depend on a type that is finalized AFTER it in
+        // the same batch (Beta is always pushed right behind Alpha)
+        ("Alpha", json!({"oneOf": [{"$ref": "#/definitions/Beta"}, {"type": "integer"}]})),
+        ("Beta", json!({"type": "string", "enum": ["p", "q"]})),
     ]
 }
 
@@ -402,7 +406,8 @@ fn verif_native_search_api() {
         let mut trace: Vec<String> = Vec::new();
         for step in 0..4 {
             let old = snap(&ts);
-            let res: std::result::Result<(), String> = if rng.below(2) == 0 {
+            let action = rng.below(5);
+            let res: std::result::Result<(), String> = if action < 2 {
                 // a batch of 1-2 definitions (self-contained: references stay inside the batch)
                 let n = 1 + rng.below(2) as usize;
                 let mut batch: Vec<(String, schemars::schema::Schema)> = Vec::new();
@@ -412,6 +417,10 @@ fn verif_native_search_api() {
                         continue;
                     }
                     batch.push((name.to_string(), serde_json::from_value(v.clone()).unwrap()));
+                    if *name == "Alpha" && !batch.iter().any(|(b, _)| b == "Beta") && !old.refs.contains_key(&crate::RefKey::Def("Beta".to_string())) {
+                        let beta = &pool.iter().find(|(n, _)| *n == "Beta").unwrap().1;
+                        batch.push(("Beta".to_string(), serde_json::from_value(beta.clone()).unwrap()));
+                    }
                 }
                 trace.push(format!("add_ref_types({:?})", batch.iter().map(|(n, _)| n.clone()).collect::<Vec<_>>()));
                 let len = batch.len() as u64;
@@ -421,6 +430,46 @@ fn verif_native_search_api() {
                         match has_containment_cycle(&ts, old.next, old.next + len) {
                             Some(i) => Err(format!("add_ref_types: containment cycle without a Box through identifier {} of the batch", i)),
                             None => Ok(()),
+                        }
+                    }),
+                }
+            } else if action == 4 {
+                // a document whose TITLED root schema becomes a type of its own, then the same
+                // root schema added again: "adding a schema that was already added returns a type
+                // with the same identifier and adds no new definitions"
+                if old.refs.contains_key(&crate::RefKey::Root)
+                    || old.refs.contains_key(&crate::RefKey::Def("Mode".to_string()))
+                    || old.names.contains_key("Config")
+                    || old.names.contains_key("Mode")
+                {
+                    continue;
+                }
+                let root: schemars::schema::RootSchema = serde_json::from_value(serde_json::json!({
+                    "title": "Config",
+                    "type": "object",
+                    "properties": {"mode": {"$ref": "#/definitions/Mode"}, "n": {"type": "integer"}},
+                    "required": ["n"],
+                    "definitions": {"Mode": {"type": "string", "enum": ["fast", "slow"]}}
+                }))
+                .unwrap();
+                trace.push("add_root_schema(Config{Mode})".to_string());
+                match ts.add_root_schema(root.clone()) {
+                    Err(_) => Ok(()),
+                    Ok(None) => Err("add_root_schema: a titled root schema yielded no type".to_string()),
+                    Ok(Some(id)) => check_new_entries(&ts, &old, "add_root_schema").and_then(|_| {
+                        let mid = snap(&ts);
+                        trace.push("add_type_with_name(Config root again, Some(Config))".to_string());
+                        match ts.add_type_with_name(&schemars::schema::Schema::Object(root.schema.clone()), Some("Config".to_string())) {
+                            Err(_) => Ok(()),
+                            Ok(id2) => {
+                                if id2 != id {
+                                    Err(format!("re-adding the root schema returned identifier {} instead of {}", id2.0, id.0))
+                                } else if snap(&ts).ids != mid.ids {
+                                    Err("re-adding the root schema added or changed definitions".to_string())
+                                } else {
+                                    Ok(())
+                                }
+                            }
                         }
                     }),
                 }
@@ -441,13 +490,30 @@ fn verif_native_search_api() {
                 });
                 trace.push(format!("add_type_with_name({}, {:?})", name, hint));
                 let schema: schemars::schema::Schema = serde_json::from_value(v.clone()).unwrap();
+                let hint2 = hint.clone();
                 match ts.add_type_with_name(&schema, hint) {
                     Err(_) => Ok(()),
                     Ok(id) => {
                         if id.0 >= ts.next_id {
                             Err("add_type_with_name: returned identifier was never handed out".to_string())
                         } else {
-                            check_new_entries(&ts, &old, "add_type_with_name")
+                            check_new_entries(&ts, &old, "add_type_with_name").and_then(|_| {
+                                // the same schema under the same hint once more: same identifier,
+                                // no new definitions
+                                let mid = snap(&ts);
+                                match ts.add_type_with_name(&schema, hint2.clone()) {
+                                    Err(_) => Ok(()),
+                                    Ok(id2) => {
+                                        if id2 != id {
+                                            Err(format!("adding the same schema again returned identifier {} instead of {}", id2.0, id.0))
+                                        } else if snap(&ts).ids != mid.ids {
+                                            Err("adding the same schema again added or changed definitions".to_string())
+                                        } else {
+                                            Ok(())
+                                        }
+                                    }
+                                }
+                            })
                         }
                     }
                 }
@@ -458,5 +524,5 @@ fn verif_native_search_api() {
             }
         }
     }
-    println!("NATIVE-SEARCH-API no failing history in {} runs of up to 4 calls (seed {})", runs, seed);
+    println!("NATIVE-SEARCH-API no failing history in {} runs of up to 4 calls (batches incl. a forward-referencing pair, titled root documents, re-adds; seed {})", runs, seed);
 }
